@@ -83,20 +83,6 @@ theorem request_wellformed (r : Request) (h : Encodable r) : WF (requestBytes r)
 theorem request_strict_decodes (r : Request) (h : Encodable r) : decodeAll (requestBytes r) = some (encRequest r) :=
   C01.decodeAll_encode _ (encRequest_valid r h)
 
-/-- the version, header fields, batch IDs and the number of items survive `norm` unconditionally -/
-theorem norm_envelope (r : Request) :
-    (norm r).version = r.version ∧ (norm r).timeStamp = r.timeStamp ∧ (norm r).async = r.async ∧
-    (norm r).batchOption = r.batchOption ∧ (norm r).maxResponseSize = r.maxResponseSize ∧
-    (norm r).items.map (·.batchId) = r.items.map (·.batchId) ∧
-    (norm r).items.map (·.payload.op) = r.items.map (·.payload.op) := by
-  refine ⟨rfl, rfl, rfl, rfl, rfl, ?_, ?_⟩
-  · simp only [norm, List.map_map]; rfl
-  · simp only [norm, List.map_map]
-    apply List.map_congr_left
-    intro it _
-    simp only [Function.comp, normItem]
-    cases it.payload <;> simp only [normPayload, Payload.op] <;> split <;> rfl
-
 /-! ## through the composed server model -/
 
 /-- **A frame the client side encodes for a request of the domain, sent by a client whose identity is established,
@@ -112,7 +98,9 @@ theorem client_frame_reaches_engine (w : Server.World) (cfg : Session.SessionCfg
 /-- an `Encodable` request is never dropped by the decoder: the frame is not a no-op of the undecodable kind -/
 theorem client_frame_parses (w : Server.World) (r : Request) (h : Encodable r) :
     Server.parse w (requestBytes r) = some (norm r) := by
-  simp only [Server.parse, requestBytes, request_roundtrip w.defaultVer r h]
+  have h' : Decode.decodeFrame w.defaultVer (requestBytes r) = .ok (norm r) := request_roundtrip w.defaultVer r h
+  unfold Server.parse
+  rw [h']
 
 /-! ## non-vacuity: concrete requests of the domain -/
 
